@@ -122,13 +122,15 @@ class Choices:
             a = draw(shape)
         if not nonneg and signed:
             a -= dt(4) if dt is np.int64 else dt(0.4)  # in place on the fresh buffer: keeps the view structure
-        deg = self.choice(["none"] * 9 + ["zero_slice", "ties", "constant"]) if a.ndim >= 1 and a.size > 1 else "none"
+        deg = self.choice(["none"] * 9 + ["zero_slice", "ties", "constant", "onehot"]) if a.ndim >= 1 and a.size > 1 else "none"
         if deg == "zero_slice":  # an all-zero last column / slice (zero norms, singular systems)
             a[..., -1] = 0
         elif deg == "ties":  # many equal entries (sorting and arg-max ties)
             a[...] = np.round(a * 2) / 2 if dt is not np.int64 else a // 3
         elif deg == "constant":  # rank-deficient: every entry the same
             a[...] = a.flat[0] if a.flat[0] != 0 else 1
+        elif deg == "onehot":  # columns of exactly unit length (identity / selection matrices): "nothing to do" shortcuts
+            _onehot(a)
         return a
 
     def low_rank(self, shape, rank, nonneg=False, kinds=("c", "f", "tview", "slice")):
@@ -188,11 +190,23 @@ class Choices:
         core = self.arr(ranks, nonneg=nonneg, rs=rs, kinds=("c", "f"))
         facs = [self.arr((s, r), nonneg=nonneg, rs=rs, kinds=("c", "f", "slice")) for s, r in zip(shape, ranks)]
         form = self.choice(["tuple", "list", "obj"])
+        unit = self.choice(["none"] * 4 + ["first", "last"])  # e.g. partial decompositions completed by identity factors
+        if unit != "none" and facs:
+            _onehot(facs[0 if unit == "first" else -1])
         if form == "tuple":
             return (core, facs)
         if form == "list":
             return [core, facs]
         return TuckerTensor((core, facs))
+
+
+def _onehot(a):
+    a[...] = 0
+    if a.ndim == 2:
+        for j in range(a.shape[1]):
+            a[j % a.shape[0], j] = 1
+    else:
+        a[(0,) * a.ndim] = 1
 
 
 def _cb(g):
@@ -762,7 +776,7 @@ def e_tr_als_sampled(g):
     rank = g.choice([[2, 2, 2, 2], 2])
     kw = dict(tensor=g.low_rank(shape, 2), rank=rank, n_samples=g.choice([6, 4, [5, 6, 4]]), n_iter_max=g.choice([2, 1, 3]))
     g.opt(kw, "uniform_sampling", [True], 0.3)
-    g.opt(kw, "randomized_error", [True], 0.3)
+    g.opt(kw, "randomized_error", [True], 0.5)
     g.opt(kw, "tol", [0], 0.3)
     if g.callback is not None and g.flag(0.5):
         kw["callback"] = _cb(g)
@@ -2276,3 +2290,39 @@ def e_loworder(g, which):
 
 
 split_entry("loworder", e_loworder, _LOWORDER, deterministic=True)
+
+
+# ---- the public rank validators, with the shape given as a *list* (the decompositions pass tuples) (round 13)
+def e_validate_rank(g, which):
+    import tensorly as tl
+
+    g.notes["which"] = which
+    shp = g.choice([[3, 4, 2], [4, 3, 3], [6, 7, 8], [2, 3, 2, 2], [4, 3], [5]])
+    shape = shp if g.flag(0.7) else tuple(shp)
+    nd = len(shp)
+    rank = g.choice(["same", 0.5, 0.1, 1.5, -0.5, 2, 0, [2] * nd, [2] * (nd + 1), (1,) + (2,) * (nd - 1) + (1,), 1.0, None])
+    kw = dict(tensor_shape=shape)
+    if rank is not None:
+        kw["rank"] = rank
+    g.opt(kw, "rounding", ["floor", "ceil", "bogus"], 0.4)
+    if which == "cp":
+        return dict(fn=tl.cp_tensor.validate_cp_rank, kwargs=kw)
+    if which == "tucker":
+        if g.flag(0.6):
+            kw["fixed_modes"] = g.choice([[0], [nd - 1], [0, nd - 1], list(range(nd)), [-1], [1, -7], (0,), [], [0, 0]])
+        return dict(fn=tl.tucker_tensor.validate_tucker_rank, kwargs=kw)
+    if which == "tt":
+        g.opt(kw, "constant_rank", [True], 0.3)
+        g.opt(kw, "allow_overparametrization", [False], 0.3)
+        return dict(fn=tl.tt_tensor.validate_tt_rank, kwargs=kw)
+    if which == "tr":
+        return dict(fn=tl.tr_tensor.validate_tr_rank, kwargs=kw)
+    kw.pop("rounding", None)
+    kw["tensorized_shape"] = kw.pop("tensor_shape")
+    if g.flag(0.85):
+        ts = g.choice([[2, 2, 3, 3], [2, 3, 2, 3], [2, 2]])
+        kw["tensorized_shape"] = ts if g.flag(0.7) else tuple(ts)
+    return dict(fn=tl.tt_matrix.validate_tt_matrix_rank, kwargs=kw)
+
+
+split_entry("validate_rank", e_validate_rank, ["cp", "tucker", "tt", "tr", "tt_matrix"], deterministic=True)
